@@ -12,7 +12,8 @@
     lock i according to the exchange / store events of the trace. *)
 From Coq Require Import ZArith List String Bool.
 From LV Require Import Base.Conc Base.Events Base.Lin Spec.Specs
-     Model.StripingPolicy Model.StripedConc Proofs.StripedConcSpec Proofs.StripedConcProofs.
+     Model.StripingPolicy Model.StripedConc Proofs.StripedConcSpec Proofs.StripedConcProofs
+     Proofs.StripedConcRefInv Proofs.StripedConcRefProofs.
 Import ListNotations.
 Local Open Scope nat_scope.
 
@@ -46,6 +47,43 @@ Theorem C16_striped_linearizable_striping :
 Proof. exact striped_striping_linearizable. Qed.
 Print Assumptions C16_striped_linearizable_striping.
 
+(** ** StripedSet, refinable policy *)
+
+(** [refinable_owner_excludes]: for every schedule, at every reachable configuration there is an assignment [a] of
+    lock / ownership states to the threads ([rs a t]: the reentrant cell lock of t is taken / owned / validated by
+    the re-check of acquire() = inside the critical section / being released; [os a t]: t owns the table and has
+    scanned cells [0, j) of the lock array, or is moving items) that is consistent with the owner word and the
+    lock words and such that
+    - at most one thread owns the table and the owner word names it;
+    - while the owner is exclusive (scan complete or moving) no thread is inside a critical section;
+    - a thread inside a critical section holds a lock of the current array that a scanning resizer has not
+      passed yet;
+    - a lock word is set iff exactly one thread has the lock. *)
+Theorem C16_refinable_owner_excludes :
+  forall cf, c_pol cf = Refinable -> 0 < c_nl cf ->
+  forall ths (c : Conc.config G V ev), Conc.reach (init_cfg cf ths) c ->
+    exists a : StripedConcRefInv.Aux,
+      let g := Conc.shared c in
+      (forall t, os a t <> ONone -> owner g = 2 * S t + 1) /\
+      (owner g = 0 -> forall t, os a t = ONone) /\
+      (forall t t', os a t <> ONone -> os a t' <> ONone -> t = t') /\
+      (forall R, exclusive (os a R) -> forall t gg i, rs a t <> RValid gg i) /\
+      (forall t gg i, rs a t = RValid gg i ->
+          gg = cur g /\ i < gsize g gg /\ rspin g gg i = 1 /\
+          forall R g0 sz j, os a R = OScan g0 sz j -> g0 = gg /\ j <= i) /\
+      (forall gg i, rspin g gg i = 1 <-> exists t, rholds (rs a t) gg i) /\
+      (forall t t' gg i, rholds (rs a t) gg i -> rholds (rs a t') gg i -> t = t').
+Proof. exact refinable_owner_excludes_thm. Qed.
+Print Assumptions C16_refinable_owner_excludes.
+
+(** [striped_linearizable], refinable policy *)
+Theorem C16_striped_linearizable_refinable :
+  forall cf, c_pol cf = Refinable -> 0 < c_nl cf ->
+  forall ths (c : Conc.config G V ev), Conc.reach (init_cfg cf ths) c ->
+    linearizable ISet (hist_of (Conc.trace c)).
+Proof. exact striped_refinable_linearizable. Qed.
+Print Assumptions C16_striped_linearizable_refinable.
+
 (** non-vacuity: two threads insert keys that collide in one bucket (hash 16 k, threshold 1), the second
     insertion triggers a resize (one store to the mask) while the other thread is running; both complete and the
     history has four events *)
@@ -53,5 +91,13 @@ Example C16_striped_striping_nonvacuous :
   let r := StripedConc.run_case [0; 16; 0; 1; 5; 0; 6; 400]%Z [[[1;0;0;0]%Z]; [[1;1;0;0]%Z; [8;0;0;0]%Z]] [0;1;1;0;1;0;1]%nat 2000 in
   snd r = true /\
   List.length (filter (fun te => match snd te with EvAcc KSt [6%Z] _ => true | _ => false end) (fst r)) = 1 /\
+  List.length (hist_of (fst r)) = 6.
+Proof. vm_compute. repeat split. Qed.
+
+(** the same program under the refinable policy: the resize replaces the lock array (one store to m_nCapacity) *)
+Example C16_striped_refinable_nonvacuous :
+  let r := StripedConc.run_case [2; 16; 0; 1; 5; 0; 6; 400]%Z [[[1;0;0;0]%Z]; [[1;1;0;0]%Z; [8;0;0;0]%Z]] [0;1;1;0;1;0;1]%nat 3000 in
+  snd r = true /\
+  List.length (filter (fun te => match snd te with EvAcc KSt [3%Z] _ => true | _ => false end) (fst r)) = 1 /\
   List.length (hist_of (fst r)) = 6.
 Proof. vm_compute. repeat split. Qed.
